@@ -230,7 +230,12 @@ def _run_impl_shard(modname, fam, cases, timeout):
 def run_impl(modname, fam, cases):
     shards = [cases[i:i + fam.shard] for i in range(0, len(cases), fam.shard)]
 
+    family_hangs = [0]      # cases of this family that hung on their own, over all shards
+
     def do(shard):
+        if family_hangs[0] >= 4:
+            # this tree hangs the family's harness again and again: report what was seen, do not wait for the rest
+            return [{"driver_crash": "not run: four cases of this family already hung", "hang": True} for _ in shard]
         # a healthy shard takes seconds; the cap bounds what a hard-hung worker (a tree that dead-locks outside the scheduler's view) costs
         obs, err = _run_impl_shard(modname, fam, shard, min(fam.case_timeout * len(shard) + 30, max(420, fam.case_timeout + 30)))
         if obs is not None:
@@ -246,6 +251,7 @@ def run_impl(modname, fam, cases):
             o, e = _run_impl_shard(modname, fam, [c], fam.case_timeout + 20)
             if o is None and e == "timeout":
                 hangs += 1
+                family_hangs[0] += 1
             out.append(o[0] if o is not None else {"driver_crash": e, "hang": e == "timeout"})
         return out
 
